@@ -97,6 +97,27 @@ class RecordingCache(MemoryCache):
         return f"RecordingCache({self.name})"
 
 
+class OwnStoreMemoryCache(MemoryCache):
+    """A user's subclass of MemoryCache that keeps a store of its own and never calls MemoryCache.__init__ (legal: the
+    Cache contract is get / set / exists)."""
+
+    def __init__(self, name):  # noqa: super().__init__() deliberately not called
+        self.name = name
+        self.store = {}
+
+    def get(self, evaluatable, options):
+        key = evaluatable.fingerprint(options)
+        if key not in self.store:
+            raise CacheGetFailure(evaluatable, options, self)
+        return copy.deepcopy(self.store[key])
+
+    def set(self, evaluatable, options, value):
+        self.store[evaluatable.fingerprint(options)] = value
+
+    def exists(self, evaluatable, options):
+        return evaluatable.fingerprint(options) in self.store
+
+
 class FaultyCache(Cache):
     """A Cache that follows the contract but misbehaves at scripted call indices.
 
@@ -853,6 +874,8 @@ class Program:
             factory = factory.nocache
         elif ck == "recording":
             kw["cache"] = self.caches[n["id"]] = RecordingCache(name)
+        elif ck == "own_store":
+            kw["cache"] = self.caches[n["id"]] = OwnStoreMemoryCache(name)
         elif ck == "faulty":
             kw["cache"] = self.caches[n["id"]] = FaultyCache(name)
         elif ck == "faulty_ne":
